@@ -629,9 +629,12 @@ def listRun {V} (c : Codec V) (vo : ValOps V) : List (Op V) → LState V → LSt
     (rest.1, r.2 :: rest.2)
 
 /-- Every operation of the history is admissible in the state in which it runs. -/
-def Admissible {V} (c : Codec V) (vo : ValOps V) : List (Op V) → Bits → Prop
-  | [], _ => True
-  | op :: ops, d => admissible c vo d op = true ∧ Admissible c vo ops (arrStep c vo op d).data
+def admissibleRun {V} (c : Codec V) (vo : ValOps V) : List (Op V) → Bits → Bool
+  | [], _ => true
+  | op :: ops, d => admissible c vo d op && admissibleRun c vo ops (arrStep c vo op d).data
+
+def Admissible {V} (c : Codec V) (vo : ValOps V) (ops : List (Op V)) (d : Bits) : Prop :=
+  admissibleRun c vo ops d = true
 
 /-! ### type promotion -/
 
